@@ -55,7 +55,9 @@ def main(argv):
                 results["%s@%s" % (name, pr)] = {"result": "patch-does-not-apply"}
                 continue
             try:
-                r = sh("./check run %s --tier %s" % (pr, tier), cwd=VERIF, env=dict(os.environ, VERIF_SEED=os.environ.get("VERIF_SEED", "1")))
+                r = sh("./check run %s --tier %s" % (pr, tier), cwd=VERIF, env=dict(os.environ, VERIF_SEED=os.environ.get("VERIF_SEED", "1"),
+                                                                                     VERIF_EVIDENCE_DIR=os.path.join(VERIF, "target", "selftest-evidence"),
+                                                                                     VERIF_REPLAY_DIR=os.path.join(VERIF, "target", "selftest-replays")))
             finally:
                 sh("git -C %s checkout -- ." % REPO)
             viol = [l for l in r.stdout.splitlines() if l.startswith("VIOLATION property=%s " % pr)]
@@ -66,6 +68,5 @@ def main(argv):
             results["%s@%s" % (name, pr)] = {"kind": kind, "property": pr, "tier": tier, "result": "caught" if caught else "missed", "exit": r.returncode,
                                              "first_report": detail[0] if detail else "", "wall_s": round(time.time() - t0, 1)}
             json.dump(results, open(respath, "w"), indent=1)
-    # the evidence files were rewritten by runs on mutated code: the caller should re-run the real checks
-    print("note: evidence/ now reflects mutated runs; re-run the affected checks on the unchanged tree")
+    print("(evidence and replay files of these mutated runs went to target/selftest-*; /verif/evidence is untouched)")
     return 0
